@@ -12,7 +12,8 @@ def check_C10(tier, seed):
                  "atomics (next_partition_id, next_partition_offset) and lock poisoning are runtime behaviour, exercised only by the harness"],
         assumptions=["one flush thread (wal_flush is never run concurrently, as the code states)", "row ids are unique per ingested row (harness data)"],
         rule="c10_sched: the flush thread (with / without compaction, fresh / restarted on-disk database) parked at each of 34 sync points, a query thread at 6, an ingester at 6, "
-             "while SELECT id / COUNT / ORDER BY id / a column some partitions lack / a column no partition has and/or a second ingestion and/or a flush and/or evict_cache are started at that instant; "
+             "while SELECT id + COUNT + ORDER BY id + a column some partitions lack + a column no partition has (all at once) and/or a second ingestion and/or a flush are started at that instant; "
+             "evict_cache + queries in dedicated classes; "
              "c10_stress: 2 ingesters + flush loop + 3 queriers (+ eviction loop in a dedicated class) with seeded perturbation at the sync points; every query result judged by the prefix relation against the "
              "acknowledged-batch log, every observed sync-point sequence replayed on the Coq model (must be a path and reproduce every snapshot and the final layout); "
              "non-trivial = the parked label was reached and something was injected; distinct by input hash")
@@ -27,12 +28,15 @@ CLAIMED = {
              "flushes, compactions and queries: every snapshot a query runs on is the concatenation of the first k pushed batches with k >= the number acknowledged when the "
              "query was issued (each batch wholly in or out, no row twice); the compaction swap never shows a snapshot both an old and the merged partition and leaves the "
              "visible rows unchanged; locks are acquired in one global order (wal < frozen_buffer < partitions < buffer) and some lock holder can always move (no deadlock); "
-             "the two protocol panics (freeze assert, snapshot_parts index) are unreachable. The catalogue look-up on the query path and the flush thread's handle unwrap are "
-             "modelled separately (Model/ConcSMCat.v, incl. eviction) and REFUTED (C10_query_no_panic_refuted, C10_flush_no_panic_refuted) - confirmed on the code as findings F14a, F14, F14b - "
-             "with the guarded theorem C10_no_panic_guarded (no absent-column query, no eviction => nobody panics, all schedules). "
+             "the two protocol panics (freeze assert, snapshot_parts index) are unreachable. The catalogue look-up on the query path, the flush thread's handle unwrap and "
+             "eviction are modelled separately (Model/ConcSMCat.v, on the code repaired by 3a6284a / 7a0a728): no query ever panics (C10_query_no_panic, unconditional); without "
+             "evictions nobody panics, no query sees an existing column as absent and the flush / compaction lose no column, for all schedules and all queried columns "
+             "(C10_no_panic_no_loss_guarded; the former F14a / F14 witnesses pass: C10_former_witnesses_pass); with an eviction these are REFUTED (C10_eviction_refuted) - "
+             "confirmed on the code as the open finding F14b. "
              "Tie: deterministic schedule enumeration through sync points plus seeded stress; the prefix oracle on every query, and replay of every observed label sequence on the model.",
-        note="Partial: the real memory model, Arc/atomics, lock poisoning, the worker pool and disk loads are runtime behaviour reached only by the harness; the model has one table. "
-             "Known findings F14a / F14 concern queries for columns a partition lacks, F14b evictions during a flush; without them plain queries satisfied the property in every explored schedule.",
+        note="Partial: the real memory model, Arc/atomics, lock poisoning, the worker pool and disk loads are runtime behaviour reached only by the harness; the model has one table; "
+             "get_cols is one atomic step in the catalogue model. Known finding F14b (eviction of a partition's columns before it is in the catalogue: NULL ids, hanging flush) is "
+             "confined to the dedicated eviction classes; every other class, absent-column queries included, must be clean.",
         technique="Coq invariant proof over all interleavings of an executable lock-protocol model + sync-point schedule enumeration and stress with model replay",
         design_ref="5/C10"),
 }
